@@ -38,7 +38,7 @@ class Contract:
     def __init__(self, fq, *, prop, types=None, result=None, requires=(), ensures=None, raises=None,
                  modifies=(), loops=None, locals=None, calls=None, globals=None, classes=None, ghost=None,
                  covers=None, inline=(), verify=True, trusted=False, note="", self_type=None, xensures=None,
-                 lemmas=(), findings=None, entry=None, pure=False, havoc_result=True, specfuns=None, ghost_update=None, ghost_havoc=None):
+                 lemmas=(), findings=None, entry=None, pure=False, havoc_result=True, specfuns=None, ghost_update=None, ghost_havoc=None, watch=None, optional=False):
         self.fq = fq
         self.prop = prop
         self.types = dict(types or {})
@@ -73,7 +73,12 @@ class Contract:
         # ghost transition: callable(SpecCtx) run once on normal exit before the ensures are evaluated (unit) / assumed (call site)
         self.ghost_update = ghost_update
         # used at call sites when there is no definitional ghost_update: introduces fresh ghost values
-        self.ghost_havoc = ghost_havoc   # name -> callable(run, *Val) -> Val, usable in spec strings
+        self.ghost_havoc = ghost_havoc
+        # watch: callable(SpecCtx, when) -> {name: z3 term}; evaluated in counter-models (for replay builders / diagnosis)
+        self.watch = watch
+        # optional: contract of an internal helper.  If the helper no longer fits the contract (engine error while reading
+        # it), the contract is dropped and callers are verified with the helper's real body inlined.
+        self.optional = optional
 
 
 class Registry:
@@ -84,6 +89,7 @@ class Registry:
         self.lemmas = []
         self.syntactic = []
         self.replays = {}
+        self.records = {}
 
     def contract(self, fq, **kw):
         c = Contract(fq, **kw)
@@ -96,6 +102,10 @@ class Registry:
         self.classes.setdefault(name, {}).update(fields)
         if module:
             self.classes[name]["__module__"] = module
+
+    def record(self, clsname, ty):
+        """A NamedTuple / frozen dataclass of the repo represented by value as the SMT datatype `ty`."""
+        self.records[clsname] = ty
 
     def inline(self, fq):
         """Small helper of the repo that is symbolically inlined at call sites instead of having a contract."""
